@@ -11,6 +11,7 @@ import (
 
 	"github.com/golang/protobuf/proto"
 	"github.com/xuperchain/xupercore/bcs/ledger/xledger/state/utxo/txhash"
+	"github.com/xuperchain/xupercore/bcs/ledger/xledger/state/xmodel"
 	pb "github.com/xuperchain/xupercore/bcs/ledger/xledger/xldgpb"
 	"github.com/xuperchain/xupercore/protos"
 
@@ -502,6 +503,106 @@ func main() {
 			}
 		}
 	}
+	// ---- outputs spent "by the contract code" must be the payer's own ----
+	// Inputs a transaction declares as spent by its contract code are exempt from their owner's
+	// signature because re-executing the code reproduces them - and the code pays on behalf of
+	// the address it names, out of THAT address's outputs. A transaction signed by the payer alone
+	// whose declared list continues with somebody else's output (needed because the amount
+	// exceeds the payer's own) must be refused.
+	{
+		n := corpusNode
+		payer, victim, receiver := sn.K(1), sn.K(0), sn.K(3)
+		own, _, ownTot, err1 := n.State.SelectUtxos(payer.Address, big.NewInt(1), false, false)
+		vic, _, vicTot, err2 := n.State.SelectUtxos(victim.Address, big.NewInt(1), false, false)
+		if err1 == nil && err2 == nil && len(own) > 0 && len(vic) > 0 {
+			// the honest shape of everything that is not a token: taken from ONE real pre-execution of
+			// the same program with an amount the payer can afford (a pre-execution reserves the
+			// outputs it selects, so it is not repeated)
+			small := (&sn.ProgBuilder{}).Transfer(payer.Address, receiver.Address, "1")
+			res, preErr := n.PreExec([]*protos.InvokeRequest{sn.VerifReq(sn.VerifContract, small.String())}, payer.Address, []string{payer.Address})
+			build := func(amount *big.Int, spent []*protos.TxInput, total *big.Int) (*pb.Transaction, error) {
+				p := (&sn.ProgBuilder{}).Transfer(payer.Address, receiver.Address, amount.String())
+				if preErr != nil {
+					return nil, preErr
+				}
+				outs := []*protos.TxOutput{{Amount: amount.Bytes(), ToAddr: []byte(receiver.Address)}}
+				if total.Cmp(amount) > 0 {
+					outs = append(outs, &protos.TxOutput{Amount: new(big.Int).Sub(total, amount).Bytes(), ToAddr: []byte(payer.Address)})
+				}
+				inBuf, err := xmodel.MarshalMessages(spent)
+				if err != nil {
+					return nil, err
+				}
+				outBuf, err := xmodel.MarshalMessages(outs)
+				if err != nil {
+					return nil, err
+				}
+				var ext []*protos.TxOutputExt
+				for _, o := range res.Outputs {
+					c := proto.Clone(o).(*protos.TxOutputExt)
+					if c.Bucket == xmodel.TransientBucket && string(c.Key) == "ContractUtxo.Inputs" {
+						c.Value = inBuf
+					}
+					if c.Bucket == xmodel.TransientBucket && string(c.Key) == "ContractUtxo.Outputs" {
+						c.Value = outBuf
+					}
+					ext = append(ext, c)
+				}
+				var so []sn.Out
+				for _, o := range outs {
+					so = append(so, sn.Out{To: string(o.ToAddr), Raw: o.Amount})
+				}
+				return sn.BuildTx(sn.TxSpec{Version: 3, Initiator: payer.Address, Signers: []*sn.Key{payer}, Inputs: spent, Outputs: so,
+					InExt: res.Inputs, OutExt: ext, Requests: []*protos.InvokeRequest{sn.VerifReq(sn.VerifContract, p.String())},
+					Nonce: "contract-spend-" + amount.String(), Timestamp: 4250})
+			}
+			try := func(name string, y *pb.Transaction, mustRefuse bool) {
+				if y == nil {
+					return
+				}
+				acc, fn, desc := verdict(n, y)
+				if acc {
+					if tw, err := n.Twin(); err == nil {
+						if derr := tw.State.DoTx(sn.CloneTx(y)); derr != nil {
+							acc, desc = false, "admission: "+derr.Error()
+						}
+						tw.Drop()
+					}
+				}
+				r.Case("attack|contract-spend|"+name, true)
+				r.Count("attacks", 1)
+				r.Count("attacks.contract-spend", 1)
+				if os.Getenv("C07_DEBUG") != "" {
+					fmt.Fprintf(os.Stderr, "c07 debug: contract-spend %s -> accepted=%v falseNil=%v %s\n", name, acc, fn, desc)
+				}
+				if acc && mustRefuse {
+					r.Violation("attack-accepted|contract-spends-output-of-another-owner|"+name, fmt.Sprintf("a transaction signed by %s alone whose contract call pays more than %s's own declared output and whose declared contract-spent inputs continue with an output of %s is accepted: %s's output is spent without its owner's signature", payer.Address, payer.Address, victim.Address, victim.Address),
+						map[string]string{"attack": name, "victim": victim.Address})
+				}
+				if !acc && !mustRefuse {
+					r.Violation("corpus|honest-contract-payment-rejected", "a contract payment out of the payer's own output, built the same way as the forgery, is refused: "+desc, map[string]string{"attack": name})
+				}
+			}
+			// control: the payer pays out of its own output (the oracle can say yes)
+			if y, err := build(big.NewInt(1), own[:1], new(big.Int).SetBytes(own[0].Amount)); err == nil {
+				try("own-output-only", y, false)
+			}
+			_ = ownTot
+			// forgery: amount one above the payer's first output; the victim's output listed after it
+			a1 := new(big.Int).SetBytes(own[0].Amount)
+			both := new(big.Int).Add(a1, new(big.Int).SetBytes(vic[0].Amount))
+			if y, err := build(new(big.Int).Add(a1, big.NewInt(1)), []*protos.TxInput{own[0], vic[0]}, both); err == nil {
+				try("victim-output-after-own", y, true)
+			} else if os.Getenv("C07_DEBUG") != "" {
+				fmt.Fprintf(os.Stderr, "c07 debug: forged build failed: %v\n", err)
+			}
+			// and the victim's output first
+			if y, err := build(new(big.Int).Add(new(big.Int).SetBytes(vic[0].Amount), big.NewInt(1)), []*protos.TxInput{vic[0], own[0]}, both); err == nil {
+				try("victim-output-first", y, true)
+			}
+			_ = vicTot
+		}
+	}
 	// ---- a forged coinbase as the block's ONLY coinbase ----
 	// The trials above put the forgery next to the honest award, so the ledger's "one coinbase per
 	// block" rule refuses the block before the state machine sees it. A producer who forges leaves
@@ -597,6 +698,8 @@ func main() {
 	r.Floor("corpus.items", 10)
 	r.Floor("mutants", 1500)
 	r.Floor("attacks", 60)
+	r.Floor("attacks.contract-spend", 3)
+	r.Floor("attacks.sole-coinbase", 3)
 	r.Floor("blockpath.trials", 200)
 	r.Floor("blockpath.trials.original-in-pool", 80)
 	r.Floor("blockpath.honest", 10)
